@@ -49,10 +49,11 @@ pub struct IdLens {
 
 // A 4-byte id without NUL makes the parser scan on into the following bytes for the
 // terminator (nom's take_while_m_n looks at the whole remaining input), so a full-length
-// id is used only where the following byte is a literal (storage ECU id before HTYP,
-// APID before CTID); ECU id and CTID, which are followed by symbolic data, are <= 3 bytes.
+// id is used only where literal bytes follow up to a literal NUL (APID before a short
+// CTID); storage ECU id, ECU id and CTID, which are followed by symbolic data (message
+// counter, session id, payload), are <= 3 bytes.
 // Full-length ids in every position are decided in c02d (fully symbolic header bytes).
-pub const IDS_FULL: IdLens = IdLens { st_ecu: 4, ecu: 3, apid: 4, ctid: 3 };
+pub const IDS_FULL: IdLens = IdLens { st_ecu: 3, ecu: 3, apid: 4, ctid: 3 };
 pub const IDS_SHORT: IdLens = IdLens { st_ecu: 3, ecu: 2, apid: 1, ctid: 0 };
 
 pub fn any_header_data(l: IdLens, version: u8, mtin: u8, noar: u8) -> HeaderData {
@@ -388,15 +389,8 @@ pub fn check_arg(got: &Argument, a: &ArgShape, d: &ArgData) {
 
 /// Build the Argument value (for the writer direction) from shape + data.
 pub fn make_arg(a: &ArgShape, d: &ArgData) -> Argument {
-    let text = |t: &[u8; 4], len: usize| -> String {
-        let mut s = String::with_capacity(len);
-        let mut i = 0;
-        while i < len {
-            s.push(t[i] as char);
-            i += 1;
-        }
-        s
-    };
+    // texts are literal (see any_text): build them from a static str in one allocation
+    let text = |_t: &[u8; 4], len: usize| -> String { String::from(&"q~Z9"[..len]) };
     let has_unit = a.vari && !matches!(a.kind, AK::Bool | AK::Str | AK::Raw);
     Argument {
         type_info: expected_type_info(a),
